@@ -249,21 +249,16 @@ deriving Repr, DecidableEq
 
 instance : Inhabited Block := ⟨{ first := 0, dropped := 0, nframes := 0, ext := [], data := [] }⟩
 
-/-- per-channel output of the segment loop, threading the `lastFb` table; `tbl` = `chan2readoutOrder`,
-`ros` = its not yet visited part, `ch` = the channel index of the head of `ros` -/
-def mixChannels {σ ρ} (ops : FloatOps σ ρ) (tbl : List Nat) (dc : List (List Nat)) (scale : List σ) (zero : σ) :
-    Nat → List Nat → List Nat → List (List Nat) × List Nat
-  | _, [], lastFb => ([], lastFb)
-  | ch, ro :: ros, lastFb =>
-    let data := dc.getD ro []
-    if ch % 2 = 1 then
-      let errData := dc.getD (tbl.getD (ch - 1) 0) []
-      let (out, l') := mixRetard ops (scale.getD ch zero) (lastFb.getD ch 0) (data.zip errData)
-      let (outs, lf) := mixChannels ops tbl dc scale zero (ch + 1) ros (lastFb.set ch l')
-      (out :: outs, lf)
-    else
-      let (outs, lf) := mixChannels ops tbl dc scale zero (ch + 1) ros lastFb
-      (data :: outs, lf)
+/-- one pass of the segment loop for channel `ch`: `s` = `ls.Mix[ch].errorScale`, `last` =
+`ls.Mix[ch].lastFb` (every channel has its own `Mix` object); returns the segment's data and the
+new `lastFb`.  `tbl` = `ls.chan2readoutOrder`. -/
+def chanOut {σ ρ} (ops : FloatOps σ ρ) (tbl : List Nat) (dc : List (List Nat)) (s : σ) (last : Nat) (ch : Nat) :
+    List Nat × Nat :=
+  let data := dc.getD (tbl.getD ch 0) []
+  if ch % 2 = 1 then
+    let errData := dc.getD (tbl.getD (ch - 1) 0) []
+    mixRetard ops s last (data.zip errData)
+  else (data, last)
 
 /-- `dc` is what the code may assume: one slice per channel, all `framesUsed` long -/
 def rect (g : Geom) (dc : List (List Nat)) : Bool :=
@@ -279,9 +274,10 @@ def distribute {σ ρ} (ops : FloatOps σ ρ) (zero : σ) (g : Geom) (st : DStat
   let next := st.next + dropped          -- `ls.nextFrameNum += FrameIndex(droppedFrames)`
   let tbl := c2rTable g
   let (ext, extLast) := edgeScan st.extLast (extItems g tbl b.dc nframes next)
-  let (data, lastFb) := mixChannels ops tbl b.dc st.scale zero 0 tbl st.lastFb
-  some ({ st with next := next + nframes, extLast := extLast, prevT := b.t, lastFb := lastFb },
-        { first := next, dropped := dropped, nframes := nframes, ext := ext, data := data })
+  let outs := (List.range g.nchan).map fun ch =>
+    chanOut ops tbl b.dc (st.scale.getD ch zero) (st.lastFb.getD ch 0) ch
+  some ({ st with next := next + nframes, extLast := extLast, prevT := b.t, lastFb := outs.map (·.2) },
+        { first := next, dropped := dropped, nframes := nframes, ext := ext, data := outs.map (·.1) })
 
 def distributeAll {σ ρ} (ops : FloatOps σ ρ) (zero : σ) (g : Geom) :
     DState σ → List Buf → Option (DState σ × List Block)
@@ -304,6 +300,38 @@ def configureMix {σ} (g : Geom) (scaleOf : Nat → σ) (st : DState σ) (req : 
 def DState.init {σ} (g : Geom) (zero : σ) (first t0 : Int) : DState σ :=
   { next := first, extLast := false, prevT := t0,
     lastFb := List.replicate g.nchan 0, scale := List.replicate g.nchan zero }
+
+/-- a history of what `getNextBlock` sees: mix requests and buffer messages -/
+inductive Step where
+  | mix (req : List (Int × Nat))
+  | buf (b : Buf)
+
+inductive DRes where
+  | mix (ok : Bool)
+  | blk (b : Block)
+deriving DecidableEq
+
+/-- the `getNextBlock` loop over a history (a non-rectangular buffer message is skipped: unmodelled) -/
+def runSteps {σ ρ} (ops : FloatOps σ ρ) (zero : σ) (scaleOf : Nat → σ) (g : Geom) :
+    DState σ → List Step → List DRes
+  | _, [] => []
+  | st, Step.mix req :: rest =>
+    match configureMix g scaleOf st req with
+    | some st' => DRes.mix true :: runSteps ops zero scaleOf g st' rest
+    | none => DRes.mix false :: runSteps ops zero scaleOf g st rest
+  | st, Step.buf b :: rest =>
+    match distribute ops zero g st b with
+    | some (st', blk) => DRes.blk blk :: runSteps ops zero scaleOf g st' rest
+    | none => runSteps ops zero scaleOf g st rest
+
+/-- the scale table in force at each buffer message of a history -/
+def scalesAt {σ} (scaleOf : Nat → σ) (g : Geom) : List σ → List Step → List (List σ)
+  | _, [] => []
+  | sc, Step.mix req :: rest =>
+    if req.all (fun (i, _) => 0 ≤ i ∧ i < g.nchan ∧ i % 2 = 1) then
+      scalesAt scaleOf g (req.foldl (fun sc (i, fr) => sc.set i.toNat (scaleOf fr)) sc) rest
+    else scalesAt scaleOf g sc rest
+  | sc, Step.buf _ :: rest => sc :: scalesAt scaleOf g sc rest
 
 /-! ### IEEE instance used by the driver (amd64 Go: no fused multiply-add) -/
 
@@ -497,11 +525,6 @@ inductive DStep where
   | mix (req : List (Int × Nat))
   | buf (nframes : Nat) (t : Int) (drop : Bool) (bytes : List Nat)
 
-inductive DRes where
-  | mix (ok : Bool)
-  | blk (b : Block)
-deriving DecidableEq
-
 structure DIn where
   g : Geom
   nsamp : Nat
@@ -513,30 +536,20 @@ structure DIn where
 def bufOf (g : Geom) (nframes : Nat) (t : Int) (drop : Bool) (bytes : List Nat) : Buf :=
   { dc := demux g.nchan nframes (u16s bytes), t := t, drop := drop }
 
+def DStep.toStep (g : Geom) : DStep → Step
+  | .mix req => .mix req
+  | .buf n t d bytes => .buf (bufOf g n t d bytes)
+
 def runD (i : DIn) : List DRes :=
-  let rec go (st : DState Float) : List DStep → List DRes
-    | [] => []
-    | .mix req :: rest =>
-      match configureMix i.g (scaleOfBits i.nsamp) st req with
-      | some st' => .mix true :: go st' rest
-      | none => .mix false :: go st rest
-    | .buf n t d bytes :: rest =>
-      match distribute floatOps 0.0 i.g st (bufOf i.g n t d bytes) with
-      | some (st', b) => .blk b :: go st' rest
-      | none => go st rest
-  go (DState.init i.g 0.0 i.first i.t0) i.steps
+  runSteps floatOps 0.0 (scaleOfBits i.nsamp) i.g (DState.init i.g 0.0 i.first i.t0) (i.steps.map (DStep.toStep i.g))
 
 /-- per buffer step: frames, scale table in force, time, drop flag -/
 def dBufs (i : DIn) : List (List Frame × List Float × Int × Bool) :=
-  let rec go (sc : List Float) : List DStep → List (List Frame × List Float × Int × Bool)
-    | [] => []
-    | .mix req :: rest =>
-      let st : DState Float := { next := 0, extLast := false, prevT := 0, lastFb := [], scale := sc }
-      match configureMix i.g (scaleOfBits i.nsamp) st req with
-      | some st' => go st'.scale rest
-      | none => go sc rest
-    | .buf n t d bytes :: rest => (chunks i.g.F n (wordsOf bytes), sc, t, d) :: go sc rest
-  go (List.replicate i.g.nchan 0.0) i.steps
+  let bufSteps := i.steps.filterMap fun s => match s with
+    | .buf n t d bytes => some (chunks i.g.F n (wordsOf bytes), t, d)
+    | _ => none
+  let scs := scalesAt (scaleOfBits i.nsamp) i.g (List.replicate i.g.nchan 0.0) (i.steps.map (DStep.toStep i.g))
+  List.zipWith (fun (b : List Frame × Int × Bool) sc => (b.1, sc, b.2.1, b.2.2)) bufSteps scs
 
 def chkD (i : DIn) (res : List DRes) : Option String :=
   let g := i.g
